@@ -279,21 +279,22 @@ theorem segment_content {P : CMode → Prop} (macFn : Tsig → List UInt8 → Li
       exact h2
 
 
-/-- the walk and the content clauses together, from a fresh writer (sessions without `clear_rrs` and
-    `getters`) -/
+/-- the walk and the content clauses together, from a fresh writer (sessions without `clear_rrs`) -/
 theorem segment_from_new (macFn : Tsig → List UInt8 → List UInt8) (hmac : MacLenOK macFn)
     (buf : Bytes) (limit : Nat) (s0 : State) (hnew : Writer.new buf limit = .ok s0) (hlim : limit ≤ 65535)
     (mode : CMode) (ops : List Op) (ht : ∀ op ∈ ops, op.Typed) (hb : ∀ op ∈ ops, ApiBounds op)
     (hr : Respects { w := { s0 with mode := mode } } ops) (hv : ∀ v, Op.setLimit v ∈ ops → v ≤ 65535)
-    (hno : ∀ op ∈ ops, op ≠ .clearRrs ∧ op ≠ .getters ∧ NonEmptySet op) (mac' : Option (List UInt8)) :
+    (hno : ∀ op ∈ ops, op ≠ .clearRrs ∧ NonEmptySet op) (mac' : Option (List UInt8)) :
     ∃ m mac d aF, finish (run { w := { s0 with mode := mode } } ops).1.w macFn = .ok (m, mac) ∧
       Message.specDecodeMsg m = some d ∧
       Message.walk false
           { mode := Driver.toSpecMode mode, buflen := buf.size, limit := min limit buf.size }
           (ops.map Driver.toSpecOp)
-          ((run { w := { s0 with mode := mode } } ops).2.map Driver.statusStr ++ ["ok"]) [m] (some d) mac' =
+          (obs { w := { s0 with mode := mode } } ops ++ ["ok"]) [m] (some d) mac' =
         Message.checkSegment false aF d m.size mac' ∧
       aF.hdr = d.msg.header ∧ aF.hdr.z = 0 ∧ m.size ≤ aF.limit ∧
+      AbsCfg (run { w := { s0 with mode := mode } } ops).1.w aF ∧
+      aF.mode = Driver.toSpecMode (run { w := { s0 with mode := mode } } ops).1.w.mode ∧
       (let modes := aF.itemModes.reverse
        let qs := aF.questions.reverse
        let nq := qs.length
@@ -323,6 +324,175 @@ theorem segment_from_new (macFn : Tsig → List UInt8 → List UInt8) (hmac : Ma
   obtain ⟨d', hd', hcl⟩ := segment_content macFn _ _ _ aF hIR hLR hT hC hG hAF.mode m mac hf hsz
   rw [hd] at hd'
   cases hd'
-  exact ⟨m, mac, d, aF, hf, hd, hw, hh, hz, hlimit, hcl⟩
+  exact ⟨m, mac, d, aF, hf, hd, hw, hh, hz, hlimit, hG, hAF.mode, hcl⟩
+
+
+/-! ### the TSIG record -/
+
+theorem algWire_eq (a : Alg) : Message.algWireName (Driver.algNum a) = (algName a).wire := by
+  cases a <;> decide +kernel
+
+theorem toATsig_algName (ts : Tsig) : (toATsig ts).algName = (tsigAlgName ts.mode).wire := by
+  unfold toATsig tsigAlgName
+  cases ts.mode <;> simp only [algWire_eq]
+
+/-- **the TSIG check of the specification** (`tsigRecordOk`): the decoded TSIG record is the key name,
+    type 250, class ANY, TTL 0, and RDATA = what RFC 8945 §4.2 puts before the MAC, the MAC `finish`
+    returned, what comes after — provided the MAC has the size the specification expects -/
+theorem tsigRecordOk_of (m : CMode) (ts : Tsig) (mac : Option (List UInt8)) (dr : Message.Record)
+    (hwf : ts.rr.keyName.WF)
+    (h : RecordIs (m ≠ .standard)
+      ⟨ts.rr.keyName, T_TSIG, QC_ANY, ttlFrom 0, tsigRdata ts.rr (tsigAlgName ts.mode) (mac.getD [])⟩ dr)
+    (hlen : (mac.getD []).length = (toATsig ts).macLen) (mac' : Option (List UInt8))
+    (hmac' : mac' = none ∨ mac' = some (mac.getD [])) :
+    Message.tsigRecordOk (Driver.toSpecMode m) (toATsig ts) mac' dr = true := by
+  obtain ⟨g1, g2, g3, g4, g5, gf, g6, g7⟩ := h
+  have h250 : T_TSIG = 250 := by decide +kernel
+  have h255 : QC_ANY = 255 := by decide +kernel
+  have hbt : XR_BADTIME = 18 := by decide +kernel
+  simp only [h250, h255] at g3 g4 g6
+  have hrdne : tsigRdata ts.rr (tsigAlgName ts.mode) (mac.getD []) ≠ [] := by
+    unfold tsigRdata
+    simp only [WName.wire_eq]
+    simp
+  -- the RDATA is one octet field
+  have hgiven : Message.givenRdata 250 255 (tsigRdata ts.rr (tsigAlgName ts.mode) (mac.getD [])) =
+      some [.bytes (tsigRdata ts.rr (tsigAlgName ts.mode) (mac.getD []))] := by
+    unfold Message.givenRdata Message.layoutOf
+    simp only [Nat.reduceEqDiff, or_self, if_false, false_and, Message.givenFields, Option.map_some]
+    cases hrd : tsigRdata ts.rr (tsigAlgName ts.mode) (mac.getD []) with
+    | nil => exact absurd hrd hrdne
+    | cons x xs => simp [Message.normFields]
+  rw [hgiven] at g6
+  simp only [Option.some.injEq] at g6
+  subst g6
+  have hrdata : dr.rdata = [.bytes (tsigRdata ts.rr (tsigAlgName ts.mode) (mac.getD []))] := by
+    generalize dr.rdata = rdd at g7
+    cases g7 with
+    | cons hh tt =>
+      cases tt
+      cases hh
+      rfl
+  -- the parts
+  have hpre : (Message.tsigRdataAround (toATsig ts) (toATsig ts).macLen).1 =
+      (tsigAlgName ts.mode).wire ++ ts.rr.timeSigned ++ u16be ts.rr.fudge ++ u16be (mac.getD []).length := by
+    simp only [Message.tsigRdataAround, toATsig_algName, hlen]; rfl
+  have hpost : (Message.tsigRdataAround (toATsig ts) (toATsig ts).macLen).2 =
+      u16be ts.rr.originalId ++ u16be ts.rr.error ++
+        u16be (if ts.rr.error = XR_BADTIME then ts.rr.serverTime else []).length ++
+        (if ts.rr.error = XR_BADTIME then ts.rr.serverTime else []) := by
+    simp only [Message.tsigRdataAround, hbt]; rfl
+  have hsplit : tsigRdata ts.rr (tsigAlgName ts.mode) (mac.getD []) =
+      (Message.tsigRdataAround (toATsig ts) (toATsig ts).macLen).1 ++ ((mac.getD []) ++
+        (Message.tsigRdataAround (toATsig ts) (toATsig ts).macLen).2) := by
+    rw [hpre, hpost]; unfold tsigRdata; simp only [List.append_assoc]
+  unfold Message.tsigRecordOk
+  generalize hP : (Message.tsigRdataAround (toATsig ts) (toATsig ts).macLen) = pp at hsplit
+  obtain ⟨pre, post⟩ := pp
+  simp only at hsplit ⊢
+  rw [hrdata]
+  simp only [Bool.and_eq_true]
+  have hkn : (toATsig ts).keyName = ts.rr.keyName.wire := rfl
+  refine ⟨⟨⟨⟨?_, by simp [g3]⟩, by simp [g4]⟩, by simp [g5, ttlFrom]⟩, ?_⟩
+  · rw [hkn]; exact nameEq_of m _ _ g1 g2
+  · rw [hsplit, ← hlen]
+    refine ⟨⟨⟨by simp [List.length_append]; omega, by simp⟩, by simp [← List.append_assoc]⟩, ?_⟩
+    rcases hmac' with rfl | rfl
+    · rfl
+    · simp
+
+
+/-! ### `checkSegment`, evaluated -/
+
+/-- when all clauses hold, what remains of `checkSegment` is the pointer audit -/
+theorem checkSegment_eq (s : Message.AState) (d : Message.Decoded) (size : Nat) (mac : Option (List UInt8))
+    (an ns ar : List Message.Record) (hex : Message.expectedRecords s = (an, ns, ar))
+    (hh : d.msg.header = s.hdr) (hz : s.hdr.z = 0)
+    (hq1 : d.msg.questions.length = s.questions.reverse.length)
+    (hq2 : Message.listEq (fun (p : Message.Mode × Message.Question) (q : Message.Question) =>
+        Message.nameEq p.1 p.2.qname q.qname && p.2.qtype == q.qtype && p.2.qclass == q.qclass)
+      ((s.itemModes.reverse.take s.questions.reverse.length).zip s.questions.reverse) d.msg.questions = true)
+    (ha : Message.recsEq (s.itemModes.reverse.drop s.questions.reverse.length) an d.msg.answers = true)
+    (hn : Message.recsEq ((s.itemModes.reverse.drop s.questions.reverse.length).drop an.length) ns
+      d.msg.authorities = true)
+    (har : match s.tsig with
+      | none => Message.recsEq ((s.itemModes.reverse.drop s.questions.reverse.length).drop (an.length + ns.length) ++
+          [s.mode, s.mode]) ar d.msg.additionals = true
+      | some t => ∃ ds r, d.msg.additionals = ds ++ [r] ∧
+          Message.recsEq ((s.itemModes.reverse.drop s.questions.reverse.length).drop (an.length + ns.length) ++
+            [s.mode, s.mode]) ar ds = true ∧ Message.tsigRecordOk s.mode t mac r = true)
+    (hsize : size ≤ s.limit) :
+    Message.checkSegment false s d size mac = Message.auditPointers d s.itemModes.reverse s.mode := by
+  unfold Message.checkSegment
+  simp only [Bool.false_eq_true, if_false, hex]
+  have hcond : ¬ (d.msg.header.id ≠ s.hdr.id ∨ d.msg.header.qr ≠ s.hdr.qr ∨ d.msg.header.opcode ≠ s.hdr.opcode ∨
+      d.msg.header.aa ≠ s.hdr.aa ∨ d.msg.header.tc ≠ s.hdr.tc ∨ d.msg.header.rd ≠ s.hdr.rd ∨
+      d.msg.header.ra ≠ s.hdr.ra ∨ d.msg.header.z ≠ 0 ∨ d.msg.header.rcode ≠ s.hdr.rcode) := by
+    rw [hh]; simp [hz]
+  simp only [List.length_reverse, List.drop_drop] at hq1 hq2 ha hn har
+  cases hts : s.tsig with
+  | none =>
+    rw [hts] at har
+    simp only at har
+    simp [hcond, hq1, hq2, ha, hn, har, hsize, Nat.not_lt.mpr hsize, bind, Except.bind, pure, Except.pure]
+  | some t =>
+    rw [hts] at har
+    obtain ⟨ds, r, hadd, h1, h2⟩ := har
+    simp [hcond, hq1, hq2, ha, hn, hadd, h1, h2, hsize, Nat.not_lt.mpr hsize, bind, Except.bind, pure, Except.pure]
+
+
+/-- **the walk of `checkSession` over a segment reduces to the pointer audit**: from a fresh writer,
+    for sessions without `clear_rrs` and `getters`, with a MAC of the size the specification expects,
+    everything `walk` and `checkSegment` check holds — failure justification, abstract state, header,
+    question and record comparison by item mode, OPT and TSIG record, size — and what is left is
+    `auditPointers` on the decoded message -/
+theorem segment_reduces_to_audit (macFn : Tsig → List UInt8 → List UInt8) (hmac : MacLenOK macFn)
+    (buf : Bytes) (limit : Nat) (s0 : State) (hnew : Writer.new buf limit = .ok s0) (hlim : limit ≤ 65535)
+    (mode : CMode) (ops : List Op) (ht : ∀ op ∈ ops, op.Typed) (hb : ∀ op ∈ ops, ApiBounds op)
+    (hr : Respects { w := { s0 with mode := mode } } ops) (hv : ∀ v, Op.setLimit v ∈ ops → v ≤ 65535)
+    (hno : ∀ op ∈ ops, op ≠ .clearRrs ∧ NonEmptySet op)
+    (hml : ∀ m mac ts, finish (run { w := { s0 with mode := mode } } ops).1.w macFn = .ok (m, mac) →
+      (run { w := { s0 with mode := mode } } ops).1.w.tsig = some ts →
+      (mac.getD []).length = (toATsig ts).macLen)
+    (mac' : Option (List UInt8))
+    (hmac' : ∀ m mac, finish (run { w := { s0 with mode := mode } } ops).1.w macFn = .ok (m, mac) →
+      mac' = none ∨ mac' = some (mac.getD [])) :
+    ∃ (m : Bytes) (mac : Option (List UInt8)) (d : Message.Decoded) (aF : Message.AState),
+      finish (run { w := { s0 with mode := mode } } ops).1.w macFn = .ok (m, mac) ∧
+      Message.specDecodeMsg m = some d ∧
+      Message.walk false
+          { mode := Driver.toSpecMode mode, buflen := buf.size, limit := min limit buf.size }
+          (ops.map Driver.toSpecOp)
+          (obs { w := { s0 with mode := mode } } ops ++ ["ok"]) [m] (some d) mac' =
+        Message.auditPointers d aF.itemModes.reverse aF.mode := by
+  obtain ⟨m, mac, d, aF, hf, hd, hw, hh, hz, hlimit, hG, hmode, hq1, hq2, ha, hn, ds, tl, hadd, har, htl⟩ :=
+    segment_from_new macFn hmac buf limit s0 hnew hlim mode ops ht hb hr hv hno mac'
+  have hI0 : I { s0 with mode := mode } := (safe_setMode mode s0 (new_i buf limit s0 hnew)).2
+  have hIR := (run_I { w := { s0 with mode := mode } } ops hI0 hr).2
+  refine ⟨m, mac, d, aF, hf, hd, ?_⟩
+  rw [hw]
+  refine checkSegment_eq aF d m.size mac' _ _ _ rfl hh.symm hz hq1 hq2 ha hn ?_ hlimit
+  generalize (run { w := { s0 with mode := mode } } ops).1.w = sR at hf hG hmode htl hIR hml hmac'
+  have hat := hG.tsig
+  cases hts : sR.tsig with
+  | none =>
+    rw [hts] at hat htl
+    simp only [Option.map_none] at hat
+    rw [hat]
+    simp only [tsigRecs] at htl ⊢
+    cases htl
+    rw [hadd, List.append_nil]
+    exact har
+  | some ts =>
+    rw [hts] at hat htl
+    simp only [Option.map_some] at hat
+    rw [hat]
+    simp only [tsigRecs] at htl ⊢
+    cases htl with
+    | cons hr1 hnil =>
+      cases hnil
+      refine ⟨ds, _, hadd, har, ?_⟩
+      rw [hmode]
+      exact tsigRecordOk_of sR.mode ts mac _ (hIR.tsig ts hts).2.1 hr1 (hml m mac ts hf hts) mac' (hmac' m mac hf)
 
 end QV.Writer
